@@ -91,7 +91,7 @@ func (h *hasher) value(v reflect.Value, depth int) {
 		h.mix(0xdead)
 		return
 	}
-	if depth > 200 {
+	if depth > 50_000_000 {
 		h.mix(0xdeed)
 		return
 	}
